@@ -524,6 +524,14 @@ class MetadorGroup(MetadorNode):
         self.__wrapped__.copy(raw_source, dst_path, **copy_kwargs)  # RAW
         dst_node = self[dst_path]  # exists now
 
+        if src_node.name == "/":
+            # the whole container was copied: its TOC is not user data (the copied
+            # metadata objects are registered below), so the copy of it is dropped
+            toc_copy = dst_node.name.rstrip("/") + M.METADOR_TOC_PATH
+            raw_root = self._self_container.__wrapped__
+            if toc_copy in raw_root:  # RAW
+                del raw_root[toc_copy]  # RAW
+
         if src_is_dataset and not without_meta:
             # because metadata lives in parallel group, need to copy separately:
             src_meta: str = src_node.meta._base_dir
